@@ -49,12 +49,15 @@ for mf in sorted(glob.glob(V+'/seeded/*/meta.json')):
 out=["# Seeded changes and which checks catch them","",
 "Every entry is a change to reduction that breaks one property while still compiling. `sub1-*` / `sub2-*` were written by fresh sub-agents that saw only the property text and a scratch worktree (two waves); each was confirmed (applies, builds, pinned tests pass, its demonstration fails with and passes without the change) before it was kept. `rev-*` re-introduce the defects repaired on the pinned tree (reverse patch of each `fix:` commit). None of these is ever committed to the repository; to run the registered checks against one: `git -C /repo apply seeded/<id>/patch.diff`, run, `git -C /repo checkout -- .` (or `scripts/mutant.sh <name> <patch> <props...>` for a scratch worktree).","",
 "| id | property | change | result | checks |","|---|---|---|---|---|"]
-n={'caught':0,'missed':0,'other':0}
+n={'caught':0,'deep':0,'missed':0,'other':0}
 for m in rows:
     v=m.get('verdict','')
-    k='caught' if v.startswith('caught') else ('missed' if v.startswith('missed') else 'other')
+    if v.startswith('caught') and ('larger' in v or 'thorough-tier' in v): k='deep'
+    elif v.startswith('caught'): k='caught'
+    elif v.startswith('missed'): k='missed'
+    else: k='other'
     n[k]+=1
     out.append(f"| {m['id']} | {m['breaks_property']} | {m['change'][:160].replace('|','/')} | {v} | {'; '.join(m.get('checks_run',[])).replace('|','/')} |")
-out+=["",f"Totals: {n['caught']} caught, {n['missed']} missed, {n['other']} not testable on their own."]
+out+=["",f"Totals: {n['caught']} caught by the quick tier, {n['deep']} caught only at larger (thorough-tier) budgets, {n['missed']} missed, {n['other']} not testable on their own."]
 open(V+'/seeded/INDEX.md','w').write('\n'.join(out)+'\n')
 print(n)
